@@ -836,6 +836,23 @@ func (e *Env) callExpr(n *ast.CallExpr) Val {
 		default:
 			return Val{T: app("i2str", app("i_val", el)), Ty: types.Typ[types.String], S: "Str"}
 		}
+	case "gc", "gb":
+		// generic ghost state of external objects (readers, writers, clocks):
+		// gc("name", ref) an integer counter, gb("name", ref) a byte sequence
+		lit, ok := n.Args[0].(*ast.BasicLit)
+		if !ok || len(n.Args) != 2 {
+			e.fail("%s(\"name\", ref)", name)
+		}
+		nm, _ := strconv.Unquote(lit.Value)
+		ref := arg(1)
+		r := ref.T
+		if ref.S == "Iface" {
+			r = app("i_val", ref.T)
+		}
+		if name == "gc" {
+			return e.ival(sel(u.comp(e.heap, "GC_"+mangle(nm), "(Array Int Int)"), r))
+		}
+		return Val{T: sel(u.comp(e.heap, "GB_"+mangle(nm), "(Array Int (Array Int Int))"), r), Ty: &seqType{elem: types.Typ[types.Uint8]}, S: "(Array Int Int)"}
 	case "typeis":
 		v := arg(0)
 		lit, ok := n.Args[1].(*ast.BasicLit)
